@@ -28,6 +28,7 @@ import (
 type FailFS struct {
 	baseFS          avfs.VFS // baseFS is the base file system.
 	failFunc        FailFunc // failFunc is the function
+	parent          *FailFS  // parent is the file system Sub was called on (nil for a root).
 	avfs.FeaturesFn          // FeaturesFn provides features functions to a file system or an identity manager.
 }
 
